@@ -51,7 +51,7 @@ class Report:
         value = float(value)
         cur = self.maxdev.get(name)
         if cur is None or value > cur[0]:
-            self.maxdev[name] = [value, None if budget is None else float(budget)]
+            self.maxdev[name] = [value, None if budget is None or budget == float("inf") else float(budget)]
 
     def skip(self, reason):
         self.inconclusive[reason] += 1
